@@ -96,8 +96,62 @@ fn rows_json(r: &[Vec<i64>]) -> Value {
 }
 
 fn run_model(log: &mut Log, tag: &str, md: &Mdl, obs_list: &[Vec<usize>]) {
-    let cfg = json!({"kind": md.kind, "s": md.s, "m": md.m, "a": rows_json(&md.a), "b": rows_json(&md.b),
+    let cfg = json!({"cls": "gen", "kind": md.kind, "s": md.s, "m": md.m, "a": rows_json(&md.a), "b": rows_json(&md.b),
         "pi": md.pi, "eps": md.eps});
+    run_cfg(log, tag, cfg, md, obs_list);
+}
+
+/// closed-form cycle family (HmmExp.tla): only the parameters are recorded, the dense
+/// matrices are built here from the same parameters
+#[derive(Clone)]
+struct Cyc {
+    s: usize,
+    m: usize,
+    s0: usize,
+    cs: i64,
+    cf: i64,
+    cb: i64,
+    big: i64,
+    pbig: i64,
+    eb: i64,
+    ee: i64,
+    kind: &'static str,
+}
+
+fn run_cycle(log: &mut Log, tag: &str, p: &Cyc, obs_list: &[Vec<usize>]) {
+    let s = p.s;
+    let a: Vec<Vec<i64>> = (0..s)
+        .map(|i| {
+            (0..s)
+                .map(|j| {
+                    if j == i {
+                        p.cs
+                    } else if j == (i + 1) % s {
+                        p.cf
+                    } else if j == (i + s - 1) % s {
+                        p.cb
+                    } else {
+                        p.big
+                    }
+                })
+                .collect()
+        })
+        .collect();
+    let md = Mdl {
+        s,
+        m: p.m,
+        a,
+        b: vec![vec![p.eb; p.m]; s],
+        pi: (0..s).map(|i| if i == p.s0 { 0 } else { p.pbig }).collect(),
+        eps: vec![p.ee; s],
+        kind: p.kind,
+    };
+    let cfg = json!({"cls": "cyc", "kind": p.kind, "s": p.s, "m": p.m, "s0": p.s0, "cs": p.cs, "cf": p.cf, "cb": p.cb,
+        "big": p.big, "pbig": p.pbig, "eb": p.eb, "ee": p.ee});
+    run_cfg(log, tag, cfg, &md, obs_list);
+}
+
+fn run_cfg(log: &mut Log, tag: &str, cfg: Value, md: &Mdl, obs_list: &[Vec<usize>]) {
     if !log.begin(tag, cfg) {
         return;
     }
@@ -274,6 +328,119 @@ pub fn drive(log: &mut Log) {
         let obs = obs_for(&mut rng, m, 2, tmax, 3);
         log.oblige("exp_ties");
         run_model(log, "tie", &md, &obs);
+    }
+
+    // (f) spread between the finite terms of one log-sum inside / around the window
+    // 709.8 .. 745 nats = 1024 .. 1074.8 bits (exp(-d) is a subnormal f64 there): reducible
+    // models. State 0 emits with exponent 0, state 1 with exponent e1, so after T steps the
+    // two forward terms differ by D = pi1 + T * e1 bits exactly.
+    let spreads: [i64; 14] = [900, 1010, 1023, 1025, 1030, 1040, 1050, 1060, 1070, 1074, 1076, 1100, 1300, 1500];
+    for (k, &d) in spreads.iter().enumerate() {
+        for variant in 0..log.opts.n(3, 12) {
+            case += 1;
+            if !log.mine(case) {
+                continue;
+            }
+            let mut rng = Rng::new(seed, 146, case);
+            let t = rng.range(4, 6);
+            let e1 = std::cmp::min(d / t, 300);
+            let pi1 = d - t * e1;
+            if pi1 > 300 {
+                continue;
+            }
+            let s = if variant % 3 == 2 { 3 } else { 2 };
+            let mut md = Mdl {
+                s,
+                m: 1,
+                a: vec![vec![-1; s]; s],
+                b: vec![vec![0]; s],
+                pi: vec![-1; s],
+                eps: vec![0; s],
+                kind: if variant % 2 == 0 { "plain" } else { "optend_none" },
+            };
+            md.pi[0] = 0;
+            md.pi[1] = pi1;
+            md.b[1][0] = e1;
+            for i in 0..s {
+                md.a[i][i] = 0; // block diagonal: no mixing
+            }
+            if variant % 3 == 1 {
+                // one-way 0 -> 1 with the heavy emission in state 0 and a free state 1: the terms
+                // "just arrived from 0" and "already in 1" of the column sums of state 1 differ by
+                // about (t - 1) * e0, i.e. about D in the last column
+                let e0 = std::cmp::min(d / (t - 1), 300);
+                md.a[0][1] = 0;
+                md.b[0][0] = e0;
+                md.b[1][0] = 0;
+                md.pi[1] = -1;
+            }
+            if s == 3 {
+                md.pi[2] = rng.range(0, 5);
+                md.b[2][0] = rng.range(0, 3);
+            }
+            let obs: Vec<Vec<usize>> = vec![vec![0; t as usize], vec![0; (t - 1) as usize]];
+            if (1025..=1074).contains(&d) {
+                log.oblige("logsum_spread_in_fastexp_window");
+            } else if d > 1074 {
+                log.oblige("logsum_spread_beyond_window");
+            } else {
+                log.oblige("logsum_spread_below_window");
+            }
+            let _ = k;
+            run_model(log, "spread", &md, &obs);
+        }
+    }
+
+    // (g) more than 256 states: closed-form cycle family, the optimal path crosses index 256
+    // (forward cycle from s0 < 256, backward cycle from s0 > 256, self loop of a state >= 256)
+    let sizes: [usize; 3] = [257, 300, 1000];
+    for &s in sizes.iter() {
+        for mv in 0..3u64 {
+            for rep in 0..log.opts.n(2, 6) {
+                case += 1;
+                if !log.mine(case) {
+                    continue;
+                }
+                let mut rng = Rng::new(seed, 147, case);
+                let cmin = rng.range(0, 3);
+                let mut others = [cmin + 1 + rng.range(0, 4), if rng.coin() { -1 } else { cmin + 1 + rng.range(0, 9) }];
+                if rng.coin() {
+                    others.swap(0, 1);
+                }
+                let (cs, cf, cb) = match mv {
+                    0 => (others[0], cmin, others[1]),
+                    1 => (others[0], others[1], cmin),
+                    _ => (cmin, others[0], others[1]),
+                };
+                let s0 = match mv {
+                    0 => 250 + rng.below(6) as usize,         // 250..255, walks up across 256
+                    1 => (257 + rng.below(6) as usize) % s,   // walks down across 256 (or wraps from 0 for s = 257)
+                    _ => if rep % 2 == 0 { s - 1 } else { 256 },
+                };
+                let tmax = if s == 1000 { 10 } else { 20 };
+                let p = Cyc {
+                    s,
+                    m: rng.range(1, 2) as usize,
+                    s0,
+                    cs,
+                    cf,
+                    cb,
+                    big: if rng.coin() { -1 } else { cmin + 5 + rng.range(0, 30) },
+                    pbig: if rng.coin() { -1 } else { 1 + rng.range(0, 20) },
+                    eb: if rep % 2 == 0 { rng.range(0, 30) } else { rng.range(60, 100) },
+                    ee: rng.range(0, 5),
+                    kind: if rng.coin() { "plain" } else { "optend_some" },
+                };
+                let p = if p.kind == "plain" { Cyc { ee: 0, ..p } } else { p };
+                let t = rng.range(8, tmax) as usize;
+                let obs: Vec<Vec<usize>> = vec![
+                    (0..t).map(|_| rng.below(p.m as u64) as usize).collect(),
+                    (0..(t / 2 + 1)).map(|_| rng.below(p.m as u64) as usize).collect(),
+                ];
+                log.oblige("more_than_256_states");
+                run_cycle(log, "cyc", &p, &obs);
+            }
+        }
     }
 }
 
